@@ -3,7 +3,7 @@
 ENGINES = [
     {'name': 'vloop', 'path': 'vp/vloop.py', 'serves_properties': [], 'kind_free_text': 'virtual asyncio loop with explicit, classified ready-queue (order-preserving-delay scheduler seam)'},
     {'name': 'explore', 'path': 'vp/explore.py', 'serves_properties': [], 'kind_free_text': 'deviation-bounded stateless schedule explorer (replay prefix on fresh objects, divergence = harness error)'},
-    {'name': 'enumerate', 'path': 'vp/props/*.py', 'serves_properties': ['C02'], 'kind_free_text': 'bounded-exhaustive enumeration of inputs/histories against a Python reference model, executed on the real code'},
+    {'name': 'enumerate', 'path': 'vp/props/*.py', 'serves_properties': ['C02', 'C04'], 'kind_free_text': 'bounded-exhaustive enumeration of inputs/histories against a Python reference model, executed on the real code'},
 ]
 
 NOTES = ('All checks drive the real bumble code imported from /repo\'s working tree; no model in another language. '
@@ -17,6 +17,14 @@ CLAIMS = {
         'text': 'Every stream over a 19-packet alphabet (all 5 HCI types x zero/1/max 8- and 16-bit bodies) up to length 2 (quick) / 3 (thorough) is cut in every way (all compositions for short streams; every single split, all pairs/triples of near-boundary splits, uniform sizes for long ones) and fed to the real PacketParser, PacketReader, AsyncPacketReader and USB splitters; delivered packets must equal the generator list, none early. Invalid type bytes at every packet boundary; server hand-over with the first client cut at every byte, on the real tcp/unix/ws server protocol objects.',
         'note': 'Reference model = the generator\'s packet list. Real sockets are replaced by the asyncio protocol callbacks. Body contents follow one pattern (contains all type bytes).',
     },
+}
+
+CLAIMS['C04'] = {
+    'level': 'model_checking',
+    'engine': 'enumerate',
+    'technique': 'explicit-state BFS over operation histories of the real DataPacketQueue / Host / FlowControlAsyncPipe with canonical-state dedup, lock-step Python reference model, invariants on every transition',
+    'text': 'BFS to depth 7 (quick) / 9 (thorough) over enqueue/completion-report(0,1,2,exact,exact+1; known and unknown handles)/flush/drain histories for buffer counts 1..3 and 2-3 connections on the real DataPacketQueue, the same alphabet injected as HCI events into a real Host, and BFS over write/pause/resume/loop-step/sink-drain histories of the real FlowControlAsyncPipe; after every transition: credits never exceeded, each packet sent exactly once in per-connection order, nothing waits while a buffer is free, drain() done when nothing is queued or in flight; every distinct state is then run to completion.',
+    'note': 'Payload contents dropped from the canonical key (the class never reads them). After a controller over-report only the weaker clauses are asserted. Early drain() returns are counted, not flagged.',
 }
 
 NOT_CLAIMED = {}
